@@ -240,7 +240,6 @@ func (p *RedisProtocol) Read() (packet *RedisPacket, err error) {
 							packet.Value = fmt.Sprintf("%s, %d", packet.Value, j)
 						}
 					}
-					packet.Value = strings.TrimSuffix(packet.Value, ", ")
 					packet.Value = fmt.Sprintf("%s]", packet.Value)
 				}
 			default:
